@@ -22,7 +22,7 @@ def add(n, sched, calls, any_byte, tier):
     hs.append(H(nm, F, "successive_lines!(%s, %d, %d, [%s], %d, %s, %d);" % (
         nm, n, k, ", ".join(str(x) for x in sc), calls, "true" if any_byte else "false", n + 3),
         "17.a" if calls == 2 else "17.b", profile="R", tier=tier, timeout=900, mem_gb=(8 if n <= 3 else 12) if calls == 2 else 14,
-        weight_gb=(8 if calls == 3 else 6 if (n == 3 or any_byte) else 5) if n <= 3 else None,   # measured resident sizes: 4.5-4.8 GB (N <= 3), 7.2 GB (three calls)
+        weight_gb=(8 if (calls == 3 and n == 3) else 6 if (n == 3 or any_byte or calls == 3) else 5) if n <= 3 else None,   # measured resident sizes: 4.5-4.8 GB (N <= 3), 7.2 GB (three calls)
         shape={"input_bytes": n, "chunk_schedule": sched, "calls": calls,
                "alphabet": "any text over ASCII + 2-byte UTF-8 characters" if any_byte else "{\\n, x, y}"},
         replay="playback"))
@@ -35,8 +35,9 @@ add(0, [], 2, False, "quick")
 for n in (1, 2, 3, 4):
     for sched in compositions(n):
         add(n, sched, 2, False, "quick" if n in (2, 3) else "thorough")
+add(2, [1, 1], 3, False, "quick")   # the three-call instance of the quick tier (N = 3 takes 5-6.5 min and 7.2 GB: thorough)
 for sched in ([3], [1, 2], [2, 1]):
-    add(3, sched, 3, False, "quick" if sched == [3] else "thorough")
+    add(3, sched, 3, False, "thorough")
 for sched in ([4], [2, 2], [1, 2, 1]):
     add(4, sched, 3, False, "thorough")
 # N = 5 with three calls ran out of memory (14 GB) for every schedule tried and is not registered
